@@ -124,7 +124,7 @@ def float_boundary(gen, lx, ly, bmin, bmx, bmy):
     if gen == "birect":
         for n2 in range(ceil(F(l2) / F(b2) + 1), floor(F(l2) / F(bmin) + 1) + 1):
             bb = l2 / (n2 - 1)
-            if ceil(l2 / bb + 1) != n2:
+            if ceil(round(l2 / bb, 9) + 1) != n2:
                 return True
         return False
     # zoned: ratio ties
@@ -240,7 +240,12 @@ def _random_lots(seed):
         try:
             lists = call_generator(gen, lx, ly, bmin, bmx, bmy)
         except Exception as ex:  # noqa: BLE001
-            out.append({"gen": gen, "lot": (lx, ly, bmin, bmx, bmy), "bad": {"Raises": [f"{type(ex).__name__}: {ex}"]}})
+            if float_boundary(gen, lx, ly, bmin, bmx, bmy):
+                # side / spacing is an exact integer and the float quotient lands on the other side: the lot is admissible in exact arithmetic
+                # only; either rounding is legal, including "no admissible row count"
+                out.append({"gen": gen, "lot": (lx, ly, bmin, bmx, bmy), "bad": {}, "float_boundary_raise": True})
+            else:
+                out.append({"gen": gen, "lot": (lx, ly, bmin, bmx, bmy), "bad": {"Raises": [f"{type(ex).__name__}: {ex}"]}})
             continue
         bad = predicates(gen, lists, lx, ly, bmin)
         out.append({"gen": gen, "lot": (lx, ly, bmin, bmx, bmy), "bad": {k: v[:1] for k, v in bad.items() if v}, "cands": sum(len(l) for l in lists)})
@@ -304,7 +309,7 @@ def run() -> int:
             u = float(Fraction(it["unit"]))
             lot = tuple(it["lot"][k] * u for k in ("lx", "ly", "bmin", "bmx", "bmy"))
             if set(r["bad"]) == {"SpacingAtLeastBmin"} and is_f15(it["gen"], lot, r["bad"]["SpacingAtLeastBmin"]):
-                chk.violation("F15", None, known_key="F15")
+                chk.violation(f"C03: bi-rectangle list with the row count bumped by float noise (spacing below b_min) on lot {it['lot']} x {it['unit']}: the defect F15 has returned", {"item": it["lot"], "unit": it["unit"], "bad": r["bad"]}, known_key="F15")
             else:
                 chk.violation(f"C03: generator {it['gen']} on lot {it['lot']} x {it['unit']}: {list(r['bad'])}", {"item": it["lot"], "unit": it["unit"], "bad": r["bad"], "mismatch": r["mismatch"]})
         elif r["mismatch"]:
@@ -325,9 +330,17 @@ def run() -> int:
             nr += 1
             if r["bad"]:
                 if set(r["bad"]) == {"SpacingAtLeastBmin"} and is_f15(r["gen"], r["lot"], r["bad"]["SpacingAtLeastBmin"]):
-                    chk.violation("F15", None, known_key="F15")
+                    chk.violation(f"C03: bi-rectangle list with the row count bumped by float noise (spacing below b_min) on random lot {r['lot']}: the defect F15 has returned", r, known_key="F15")
                 else:
                     chk.violation(f"C03: generator {r['gen']} on random lot {r['lot']}: {list(r['bad'])}", r)
+    # the recorded input of the listed finding F15 (reported as KNOWN-FINDING while it reproduces)
+    lot = (120.0, 100.5, 4.0, 10.0, 10.0)     # l2 = 100.5, b_min = 4: the largest admissible division count k = 25 is recomputed as 26 -> spacing 3.865 m
+    try:
+        bad = predicates("birect", call_generator("birect", *lot), lot[0], lot[1], lot[2])
+        if set(k for k, v in bad.items() if v) == {"SpacingAtLeastBmin"} and is_f15("birect", lot, bad["SpacingAtLeastBmin"]):
+            chk.violation(f"C03: spacing below b_min on the recorded F15 lot {lot}: the defect F15 has returned", {"lot": lot}, known_key="F15")
+    except Exception as ex:  # noqa: BLE001
+        chk.violation(f"C03: bi-rectangle generator raised {type(ex).__name__} on the recorded F15 lot {lot}", {"lot": lot})
     chk.note("random_real_lots", nr)
     chk.evaluations += nr
     chk.exhaustive = True
